@@ -470,3 +470,69 @@ func loopEarlyExit(f *eng.Fn, loop ast.Stmt) ast.Node {
 	})
 	return early
 }
+
+// retResults returns the operands of a return statement with a named call
+// looked through: `a, b := f(x); return a, b` is `return f(x)` when a and b are
+// locals whose only reaching definition at the return is that one statement
+// (result i of the call bound to operand i). Rules that ask "what does this
+// return hand back" see the same thing for both spellings.
+func retResults(f *eng.Fn, rs *ast.ReturnStmt) []ast.Expr {
+	if len(rs.Results) == 0 {
+		return rs.Results
+	}
+	g := f.Graph()
+	rp, ok := g.Where(rs)
+	if !ok {
+		return rs.Results
+	}
+	var call *ast.CallExpr
+	var def ast.Node
+	for i, r := range rs.Results {
+		idn, ok := ast.Unparen(r).(*ast.Ident)
+		if !ok {
+			return rs.Results
+		}
+		v, ok := f.Info().ObjectOf(idn).(*types.Var)
+		if !ok || !eng.IsLocal(v) {
+			return rs.Results
+		}
+		d := g.UniqueDef(v, rp)
+		if d == nil || d.RHS == nil || d.Index != i {
+			return rs.Results
+		}
+		cl, ok := ast.Unparen(d.RHS).(*ast.CallExpr)
+		if !ok {
+			return rs.Results
+		}
+		if call == nil {
+			call, def = cl, d.Node
+		} else if call != cl || def != d.Node {
+			return rs.Results
+		}
+	}
+	if call == nil {
+		return rs.Results
+	}
+	// all results of the call are returned, in order
+	n := 1
+	if tup, ok := f.Info().TypeOf(call).(*types.Tuple); ok {
+		n = tup.Len()
+	}
+	if n != len(rs.Results) {
+		return rs.Results
+	}
+	return []ast.Expr{call}
+}
+
+// retContainsCall: ContainsCall over the looked-through operands of a return.
+func retContainsCall(f *eng.Fn, rs *ast.ReturnStmt, pat string) *ast.CallExpr {
+	if cl := f.ContainsCall(rs, pat); cl != nil {
+		return cl
+	}
+	for _, e := range retResults(f, rs) {
+		if cl := f.ContainsCall(e, pat); cl != nil {
+			return cl
+		}
+	}
+	return nil
+}
